@@ -53,7 +53,15 @@ func (c *Ctx) mergeFn() *ssa.Function {
 	var out *ssa.Function
 	n := 0
 	for _, fn := range c.Funcs {
-		if len(storesToField(fn, fNS)) > 0 {
+		stamps := false
+		for _, st := range storesToField(fn, fNS) {
+			// taking the stamp over from another entry (the implicit case from the node it wraps) is not stamping
+			if _, lf, _ := loadedField(st.Val); lf == fNS {
+				continue
+			}
+			stamps = true
+		}
+		if stamps {
 			out = fn
 			n++
 		}
